@@ -5,7 +5,7 @@
 From Coq Require Import String ZArith.
 From Verif Require Import Bytes Base64 Scram AuthLoop Sasl Crypto SaslRun.
 From VerifGen Require Import Gen.
-From VerifProofs Require Import SaslProofs ScramE2EProofs.
+From VerifProofs Require Import ScramProofs SaslProofs ScramE2EProofs.
 Open Scope N_scope.
 
 (* saslname: names containing ',' and '=' survive, and the escaped name cannot split the message *)
@@ -130,6 +130,11 @@ Theorem C14_client_dials_are_fresh : forall S (mk : nat -> mech S) lad s0 script
 Proof. exact client_dials_fresh. Qed.
 Print Assumptions C14_client_dials_are_fresh.
 
+(* T1: handleServerFirstResponse assembles the AuthMessage from the server-first-message as received *)
+Theorem C14_source_authmsg_uses_raw_server_first : Gen.scram_authmsg_uses_raw_server_first = true.
+Proof. exact ScramProofs.gen_authmsg_raw. Qed.
+Print Assumptions C14_source_authmsg_uses_raw_server_first.
+
 (* internal/pbkdf2.Key (block loop, U/T xor loop, transliterated in Scram.pbkdf2_key) is RFC 5802's Hi when the key
    length is the hash length (one block), for every HMAC with outputs of one length and every iteration count >= 1 *)
 Theorem C14_pbkdf2_is_Hi : forall (HMAC : bytes -> bytes -> bytes) (n : nat) pw salt (i : nat),
@@ -156,6 +161,9 @@ Theorem C14_scram_exchange_accepted :
     db acct = Some (store H HMAC pw salt iter) ->
     (1 <= iter)%nat -> N.of_nat iter < 9223372036854775808 -> wf_bytes salt = true ->
     ~ In 44 (sc_snonce c) ->
+    (* optional extensions after the iteration count (RFC 5802 section 7): the AuthMessage of both sides contains the
+       server-first-message AS SENT, extensions included *)
+    (sc_ext c = [] \/ exists e, sc_ext c = 44 :: e) ->
     forall cbname cbdata : bytes,
     (if sid_plus id
      then sc_plus c = true /\ sc_cbname c = cbname /\ sc_cbdata c = cbdata /\ wf_bytes cbdata = true /\
@@ -176,7 +184,7 @@ Theorem C14_scram_exchange_accepted_ascii :
     precis (escape_name (sid_user id)) = Some (escape_name (sid_user id)) -> precis (sid_pass id) = Some (sid_pass id) ->
     db (sid_user id) = Some (store H HMAC (sid_pass id) salt iter) ->
     (1 <= iter)%nat -> N.of_nat iter < 9223372036854775808 -> wf_bytes salt = true ->
-    ~ In 44 (sc_snonce c) -> sid_plus id = false -> sc_plus c = false ->
+    ~ In 44 (sc_snonce c) -> (sc_ext c = [] \/ exists e, sc_ext c = 44 :: e) -> sid_plus id = false -> sc_plus c = false ->
     forall r : bytes, is_nil r = false ->
     forall (st : scram_state) (rest : list bytes),
       scram_dialogue H HMAC hsize precis cfg id c db (st, r :: rest) = true.
